@@ -228,6 +228,12 @@ def run(prop, ctx, seed=0):
                 errors.append(f"SELF: variant `{name}` is malformed: {r['na']}")
             continue
         viol = r["violations"]
+        if name.startswith("neutral/"):
+            # a recorded (known) finding that a refactor moved into another function is the same finding, not an
+            # alarm of the checker: compare by (rule, fact) for the neutral patches
+            from verifkit.core import load_known
+            moved = {(k["rule"], k["fact"]) for k in load_known() if k["property"] == prop and k.get("status") == "known"}
+            viol = [x for x in viol if (x[0], x[2]) not in moved]
         if kind == "mutant":
             hit = [x for x in viol if (v is None or not v.expect or x[0] in v.expect)
                    and (v is None or v.construct is None or v.construct in x[1])]
